@@ -20,7 +20,7 @@ EXPLANATION = (
     'back with the very index vector produced by the argsort that sorted the gains (restricted to the kept '
     'prefix), so permuting the channels permutes the allocation. Not decided: optimality, sum == total power, '
     'non-negativity (numeric).'
-    ' General rules also applied here (see DESIGN 10.5): input immutability (no in-place modification of an array argument, alias- and view-aware).')
+    ' General rules also applied here (see DESIGN 10.5): input immutability (no in-place modification of an array argument, alias- and view-aware). C12.f: the result container is not typed by the caller\'s array (np.*_like without dtype).')
 
 
 def _derived(fn: FuncInfo, seeds: Set[str]) -> Set[str]:
@@ -291,6 +291,10 @@ def synthetic():
 
 
 MUTANTS = [
+    Mutant('allocation-container-typed-by-the-gains', WF, 'doWF',
+           [('regex', r'vtOptP = np\.zeros\(\[vtChannels\.size\]\)', 'vtOptP = np.zeros_like(vtChannels)')], r'C12\.f:doWF:like:vtOptP'),
+    Mutant('benign-allocation-container-like-with-dtype', WF, 'doWF',
+           [('regex', r'vtOptP = np\.zeros\(\[vtChannels\.size\]\)', 'vtOptP = np.zeros_like(vtChannels, dtype=float)')], None, benign=True),
     Mutant('remainder-spread-over-all-channels', WF, 'doWF', [('replace', 'dPdiff / (dNChannels - dRemoveChannels) + Ps', 'dPdiff / dNChannels + Ps')],
            r'C12\.e:doWF:spread'),
     Mutant('remainder-not-spread', WF, 'doWF', [('replace', 'dPdiff / (dNChannels - dRemoveChannels) + Ps', 'Ps')], r'C12\.e:doWF'),
